@@ -90,7 +90,7 @@ var c18Templates = map[string]string{
 	"failmacro.html":  "{% macro m(v) %}partial-{{ v }}{{ nofunc() }}{% endmacro %}[{{ _self.m(x) }}]",
 	"failblock.html":  "{% set c = block('b') %}{% block b %}partial-{{ x }}{% if t %}{{ nofunc() }}{% endif %}{% endblock %}",
 	"failinc.html":    "{% filter upper %}outer-{% include 'runtime.html' %}{% endfilter %}",
-	"tests.txt":    "{{ 4 is pos }}{{ 0 is not pos }}{% for i in items if i %}{{ loop.index }}{{ i }}{% else %}none{% endfor %}",
+	"tests.txt":       "{{ 4 is pos }}{{ 0 is not pos }}{% for i in items if i %}{{ loop.index }}{{ i }}{% else %}none{% endfor %}",
 }
 
 // c18Shared / c18SharedMap are read-only values that every context refers to (the same Go slice, with spare
